@@ -31,8 +31,8 @@ with at least one AVP and at least 2 distinct kinds of call; distinct by hash of
 
 fn parts(t: Tier) -> Vec<Part> {
     let a = match t {
-        Tier::Quick => 1_600,
-        Tier::Thorough => 30_000,
+        Tier::Quick => 4_800,
+        Tier::Thorough => 60_000,
     };
     vec![tape("histories", a, 4000)]
 }
@@ -175,7 +175,8 @@ fn check(t: &mut Tape, cx: &mut Cx) -> Res {
     let order: Vec<usize> = (0..calls).map(|_| next(pool.len())).collect();
     let render = |extra: Value| json!({"pool": pool.iter().map(|o| o.describe()).collect::<Vec<_>>(), "calls": calls, "detail": extra});
 
-    cx.stage(STAGE_ARMED);
+    // a process death here is a crash of the codec, which C01/C02/C13 report; purity is about output and results
+    cx.stage(STAGE_UNATTRIBUTED);
     // (silence) + canonical pass + history pass, all under capture
     let cap = match Capture::start() {
         Some(c) => c,
